@@ -58,11 +58,18 @@ func evalP7pad(args []string) string {
 	if !ok {
 		return "bad-op"
 	}
+	// the argument is a record inside a larger buffer (spare capacity 300): the call may read its argument only
 	buf := bytes.Repeat([]byte{0xc5}, len(b)+300)
 	copy(buf, b)
-	out, err := x509.VerifPad(buf[:len(b):len(b)], bl)
+	out, err := x509.VerifPad(buf[:len(b)], bl)
+	if !bytes.Equal(buf[:len(b)], b) || !p7canaryIntact(buf[len(b):], 0xc5) {
+		return "ORACLE-FAIL:caller-memory-written"
+	}
 	if err != nil {
 		return "err"
+	}
+	for i := range buf { // the result is a value of its own: later writes to the caller's buffer do not reach it
+		buf[i] ^= 0xff
 	}
 	return hx(out)
 }
@@ -171,16 +178,39 @@ func sm2Party(i int) (*x509.Certificate, *sm2.PrivateKey) {
 
 var p7mu sync.Mutex // PKCS#7 content-encryption algorithm is a package variable
 
-// p7env <des|aesgcm> <rsa|sm2> <c1c3c2|c1c2c3> <nrecip> <content>
+func p7canaryIntact(b []byte, v byte) bool {
+	for _, x := range b {
+		if x != v {
+			return false
+		}
+	}
+	return true
+}
+
+// p7env <des|aesgcm> <rsa|sm2> <c1c3c2|c1c2c3> <nrecip> <content> [<spare>]
+// The content handed to the library is a record inside a larger buffer: <spare> bytes of somebody else's data
+// follow it within the capacity of the slice (default: 1..40, derived from the content length; 0 = exact capacity).
 func evalP7env(args []string) string {
-	if len(args) != 5 {
+	if len(args) != 5 && len(args) != 6 {
 		return "bad-op"
 	}
 	n, _ := strconv.Atoi(args[3])
-	content, ok := unhx(args[4])
+	want, ok := unhx(args[4])
 	if !ok || n < 1 || n > 3 {
 		return "bad-op"
 	}
+	spare := 1 + (len(want)*7+3)%40
+	if len(args) == 6 {
+		var err error
+		if spare, err = strconv.Atoi(args[5]); err != nil || spare < 0 || spare > 4096 {
+			return "bad-op"
+		}
+	}
+	const lead = 5
+	arena := bytes.Repeat([]byte{0xa7}, lead+len(want)+spare)
+	copy(arena[lead:], want)
+	content := arena[lead : lead+len(want) : lead+len(want)+spare]
+	arena0 := append([]byte{}, arena...)
 	p7mu.Lock()
 	defer p7mu.Unlock()
 	if args[0] == "aesgcm" {
@@ -206,6 +236,10 @@ func evalP7env(args []string) string {
 	} else {
 		der, err = x509.PKCS7EncryptSM2(content, certs, mode)
 	}
+	if !bytes.Equal(arena, arena0) { // enveloping reads its content; the bytes around it belong to somebody else
+		return "ORACLE-FAIL:caller-memory-written"
+	}
+	content = want
 	if err != nil {
 		return "ORACLE-FAIL:encrypt:" + strings.ReplaceAll(err.Error(), " ", "_")
 	}
@@ -795,7 +829,8 @@ func genC17(r *rng, tier string, emit func(string)) {
 		}
 		emit(fmt.Sprintf("p12 %s %s %d", hx([]byte(p)), hx([]byte(w)), i%8))
 	}
-	c17kGen(r, tier, emit) // PKCS#12 KDF / MAC / PBE / MAC decision (Model.PKCS12)
+	c17kGen(r, tier, emit)   // PKCS#12 KDF / MAC / PBE / MAC decision (Model.PKCS12)
+	c17FixGen(r, tier, emit) // records inside larger buffers (Model.SliceMem), key types in PKCS#12 bundles (Model.PKCS8)
 }
 
 // ---- a small definite-length TLV tree, to re-encode an envelope in the BER "streaming" form -----------------
